@@ -168,7 +168,7 @@ def run(ctx):
         part = recs[i:i + chunk]
         vf.write_ndjson(d + "/C43_trace.ndjson", part)
         tv = vf.tlc(ctx, "TraceHlsSession", "TraceHlsSession.cfg", workers=1, timeout=1800, java_opts=["-Xmx8g"], xss="512m")
-        for bad in tv.tagged("BAD"):
+        for bad in {b["l"]: b for b in tv.tagged("BAD")}.values():
             r = part[bad["l"] - 1]
             for k in bad["events"][:5]:
                 e = r["events"][k - 1]
@@ -179,7 +179,7 @@ def run(ctx):
                                    "CDN secret configured=%s, variant=%s; history: %s" % (
                                        e["kind"], e["path"], e["status"], e["ip"], rec["secret_of"], e["place"], e["auth"],
                                        r["cdnConf"], r["variant"], json.dumps(hist)[:1200]))
-        for x in tv.tagged("DRIFT"):
+        for x in {b["l"]: b for b in tv.tagged("DRIFT")}.values():
             drift += len(x["events"])
             if drift <= 3 * len(x["events"]):
                 r = part[x["l"] - 1]
